@@ -57,3 +57,40 @@ Theorem C11_dropped_only_when_empty : forall c hashf a o k s,
   Inv a -> sget k (a_svcs a) = Some s -> sget k (a_svcs (fst (step c hashf a o))) = None ->
   s_insts s = [].
 Proof. exact dropped_only_when_empty. Qed.
+
+(** ---- the same, stated directly "at every moment": after EVERY history of well-formed operations ---- *)
+Theorem C11_history_counters_match : forall c hashf ops t0,
+  Forall op_wf ops -> forall k s,
+  let a := run_all c hashf (actor_init t0) ops in
+  sget k (a_svcs a) = Some s ->
+  s_size s = Z.of_nat (length (query_all_instances a k)) /\
+  s_hsize s = Z.of_nat (length (filter i_healthy (query_all_instances a k))).
+Proof. exact history_counters_match. Qed.
+
+Theorem C11_history_perpetual_set : forall c hashf ops t0,
+  Forall op_wf ops -> forall k s ik,
+  let a := run_all c hashf (actor_init t0) ops in
+  sget k (a_svcs a) = Some s ->
+  NoDup (s_perp s) /\ (In ik (s_perp s) <-> exists i, iget ik (s_insts s) = Some i /\ i_ephemeral i = false).
+Proof. exact history_perpetual_set. Qed.
+
+Theorem C11_history_index_once : forall c hashf ops t0,
+  Forall op_wf ops ->
+  let a := run_all c hashf (actor_init t0) ops in
+  NoDup (ni_keys (a_index a)) /\
+  (forall k, In k (ni_keys (a_index a)) <-> sget k (a_svcs a) <> None) /\
+  ni_size (a_index a) = N.of_nat (length (ni_keys (a_index a))).
+Proof. exact history_index_once. Qed.
+
+Theorem C11_history_client_records : forall c hashf ops t0,
+  Forall op_wf ops -> forall c0 ks k ik,
+  let a := run_all c hashf (actor_init t0) ops in
+  cget c0 (a_clients a) = Some ks -> In (k, ik) ks ->
+  exists i, stored a k ik = Some i /\ i_client i = c0.
+Proof. exact history_client_records. Qed.
+
+Theorem C11_history_dropped_only_when_empty : forall c hashf ops t0,
+  Forall op_wf ops -> forall o k s,
+  let a := run_all c hashf (actor_init t0) ops in
+  sget k (a_svcs a) = Some s -> sget k (a_svcs (fst (step c hashf a o))) = None -> s_insts s = [].
+Proof. exact history_dropped_only_when_empty. Qed.
